@@ -40,7 +40,7 @@ unsigned in_ae_avail[AE_ROUNDS];   /* samples the engine can deliver in its k-th
 double   in_ae_delay;
 int      in_ae_create_err = -1;    /* index (creation order) of the channel whose create fails */
 int      ae_check_seq = 1;         /* check ghost sequence numbers of the input */
-int      ae_n_created, ae_n_closed, ae_n_live;
+int      ae_n_created, ae_n_closed, ae_n_live, ae_n_create_failed;
 unsigned ae_total_out_calls, ae_total_in_calls, ae_total_proc_calls, ae_total_flush_calls;
 unsigned ae_engine_calls_after_mark; int ae_mark;
 ae_chan_t * ae_chans[AE_MAXCH];
@@ -155,7 +155,7 @@ static char const * ae_create_k(int kind, void * channel, void * shared, double 
   c->q = *q_spec; c->r = *r_spec;
   c->id = ae_n_created;
   if (ae_n_created < AE_MAXCH) ae_chans[ae_n_created] = c;
-  if (in_ae_create_err == ae_n_created++) return "ae: create failed";
+  if (in_ae_create_err == ae_n_created++) { ++ae_n_create_failed; return "ae: create failed"; }
   c->created = 1; ++ae_n_live;
   return 0;
 }
